@@ -81,10 +81,10 @@ R.lemma('C09/round-trip/step-PE', vars={'e': 'PE'},
     goal="implies(wfv_ents(e), norm_ents(deser_ents(ser_ents(e))) == rtmap_ents(e))", serves=('C09',))
 
 # ---- C07: the serialised forms of a dict parameter and of a nested task/enum never coincide -- EXPECTED TO FAIL (known finding K-reserved)
-R.lemma('C07/dict-never-reads-as-task', vars={'v': 'PV'},
-    hyps=[C("immutable(v)", 'a normalised parameter value'), C("is_PFrozen(v)", 'that is a dict')],
-    goal="(not marked(ser(v), '_is_task')) and (not marked(ser(v), '_is_enum'))", serves=('C07', 'C09'),
-    note='without excluding the marker keys from dict parameters this is false: {"_is_task": True, ...} serialises like a task')
+R.lemma('C07/dict-never-reads-as-task', vars={},
+    hyps=[C("immutable(PFrozen(ECons(PStr('_is_task'), PBool(True), ENil())))", 'a normalised dict parameter {"_is_task": True}')],
+    goal="not marked(ser(PFrozen(ECons(PStr('_is_task'), PBool(True), ENil()))), '_is_task')", serves=('C07', 'C09'),
+    note='instance of "a dict parameter never serialises like a nested task"; false for dicts that use the marker keys, which is why the injectivity and round-trip lemmas carry the reserved-free precondition (wfv)')
 
 # ---- C07 (ii): distinct parameter trees have distinct serialisations -- a corollary of the round trip
 R.lemma('C07/serialisation-injective', vars={'a': 'PV', 'b': 'PV'},
